@@ -779,7 +779,9 @@ extern "C" int __wrap___cxa_guard_acquire( uint64_t* guard)
    const int  me = tl_id;
    if (me < 0 || !g.active.load())
       return __real___cxa_guard_acquire( guard);
-   point( pkLock);
+   // (no schedule point of its own: the compiler calls this function only
+   // while the object is not initialised yet, i.e. once per process; a point
+   // here would make the first run of a process differ from the later ones)
    for (;;)
    {
       GuardRec*  r = findGuard( guard, false);
@@ -805,7 +807,6 @@ extern "C" void __wrap___cxa_guard_release( uint64_t* guard)
    {
       if (GuardRec* r = findGuard( guard, false)) { r->g = nullptr; r->owner = -1; }
       wakeInitWaiters( guard);
-      point( pkUnlock);
    }
 }
 
@@ -830,6 +831,7 @@ extern "C" int pthread_once( pthread_once_t* once, void (*init)( void))
       if (cur == 2)
       {
          if (__tsan_acquire != nullptr) __tsan_acquire( once);
+         point( pkUnlock);   // the same points whether the routine ran here or earlier
          return 0;
       }
       int  expected = 0;
